@@ -257,6 +257,22 @@ def handle1 : Handler := fun op args =>
   | "bip32_pathhist", [n, paths] => do
     let paths ← parseList? textOf? paths
     withNode n fun n => "ok " ++ ";".intercalate ((pathRun gen fuel n [] paths).map showItem)
+  -- `node.override_network(<net>)`: the fields of the rebuilt node and its text on the other network
+  | "bip32_override", [n, net] => do
+    let net ← findNet? net
+    withNode n fun n =>
+      match n.overrideNetwork gen with
+      | .error e => "err " ++ e.tag
+      | .ok m => "ok " ++ showNode m ++ " " ++ showText (asText net m m.secretExponent.isSome)
+  -- the constructor with `secret_exponent` / `public_pair` each given or not (`-` = None)
+  | "bip32_ctor", [k, depth, fp, idx, cc, se, pp] => do
+    let k ← parseKind? k; let depth ← parseNat? depth; let fp ← parseHex? fp; let idx ← parseNat? idx; let cc ← parseHex? cc
+    let se ← if se = "-" then some none else (parseInt? se).map some
+    let pp ← if pp = "-" then some none else if pp = "inf" then some (some none) else (parsePair? pp).map fun q => some (some q)
+    some (showR showNode (mkNodeArgs gen k cc depth fp idx se pp))
+  | "bip32_children", [n, maxLevel, start, hard] => do
+    let maxLevel ← parseNat? maxLevel; let start ← parseNat? start; let hard ← parseBool? hard
+    withNode n fun n => showR (fun l => ";".intercalate (l.map showNode)) (n.children gen fuel maxLevel start hard)
   | "bip32_subkeys", [n, range] => do
     let range ← textOf? range
     withNode n fun n =>
@@ -265,6 +281,12 @@ def handle1 : Handler := fun op args =>
       | .error e => "err " ++ e.tag
   -- `bip32.py` called directly with a generator whose `order()` is `n` (a stub in the harness): makes the retry loop
   -- of `subkey_secret_exponent_chain_code_pair` reachable (`I_L ≥ n` about half of the time for `n ≈ 2²⁵⁵`)
+  -- the same function called without `public_pair` (its default `None`): the pair is `secret_exponent * generator`
+  | "bip32_ckdraw0", [se, cc, i, h] => do
+    let se ← parseInt? se; let cc ← parseHex? cc; let i ← parseInt? i; let h ← parseBool? h
+    match gen.mul se with
+    | .ok (some pp) => some (showR (fun (r : Int × Bytes) => s!"{r.1} {hx r.2}") (subkeySecretExponentChainCodePair gen fuel se cc i h pp))
+    | _ => none
   | "bip32_ckdraw", [n, se, cc, i, h, pp] => do
     let n ← parseNat? n; let se ← parseInt? se; let cc ← parseHex? cc; let i ← parseInt? i; let h ← parseBool? h
     let pp ← parsePair? pp
@@ -331,6 +353,38 @@ def handle1 : Handler := fun op args =>
         some s!"ok {prvT} {text (parsePrefix net k false) pubE}"
   | "electrum_new", [w] => do
     some (showR showWallet (Electrum.mkWallet gen (← parseWalletArg? w)))
+  | "electrum_args", [ws] => do
+    let args ← if ws = "~" then some [] else (ws.splitOn "+").mapM parseWalletArg?
+    some (showR showWallet (Electrum.mkWalletArgs gen args))
+  | "electrum_ser", [w] => do
+    match Electrum.mkWallet gen (← parseWalletArg? w) with
+    | .error e => some ("err " ++ e.tag)
+    | .ok w => some (showR hx w.serialize)
+  | "electrum_deser", [b] => do
+    match Electrum.deserialize gen (← parseHex? b) with
+    | .error e => some ("err " ++ e.tag)
+    | .ok none => some "ok none"
+    | .ok (some w) => some ("ok " ++ showWallet w)
+  -- `subkeys(range)`; mode 0: on the wallet, 1: on its public copy, 2: on the public copy of its public copy
+  | "electrum_subkeys", [w, range, mode] => do
+    let a ← parseWalletArg? w; let range ← textOf? range; let mode ← parseNat? mode
+    let w : Except Err Electrum.Wallet :=
+      match Electrum.mkWallet gen a with
+      | .error e => .error e
+      | .ok w =>
+        if mode = 0 then .ok w
+        else match w.publicCopy gen with
+          | .error e => .error e
+          | .ok w1 => if mode = 1 then .ok w1 else w1.publicCopy gen
+    match w with
+    | .error e => some ("err " ++ e.tag)
+    | .ok w => some (showR (fun l => ";".intercalate (l.map showWallet)) (w.subkeys gen range))
+  -- `subkey_for_path(path)` is `subkey(path)`
+  | "electrum_sfp", [w, path] => do
+    let a ← parseWalletArg? w; let path ← textOf? path
+    match Electrum.mkWallet gen a with
+    | .error e => some ("err " ++ e.tag)
+    | .ok w => some (showR showWallet (w.subkey gen path))
   | "electrum_subkey", [w, path, pubFirst] => do
     let a ← parseWalletArg? w; let path ← textOf? path; let pubFirst ← parseBool? pubFirst
     let w : Except Err Electrum.Wallet :=
